@@ -1,6 +1,7 @@
 import OrsoVerif.Model.PyVal
 import OrsoVerif.Model.Cast
 import OrsoVerif.Model.CastJson
+import OrsoVerif.Model.CastPrim
 import OrsoVerif.Drv.C08
 /-! Driver glue for C07: decode a type and a value, run the cast model, encode. -/
 namespace Drv.C07
@@ -144,6 +145,9 @@ def handle (op : String) (args : List PyVal) : Option (List PyVal) :=
     let w ← decodeWs w
     let rt ← repTable rt
     pure [.str (String.ofList (Json.render w (fun b => ((rt.lookup b).getD "?").toList) j))]
+  | "floatspecials", [] =>
+    -- the parameter table of boundary float texts (compared with the interpreter's float() by the harness)
+    pure [.list (floatSpecials.map fun p => .list [.str p.1, .float p.2])]
   | _, _ => none
 
 end Drv.C07
